@@ -112,6 +112,16 @@ where
         }
     };
     r.reach("parsed_ok_by_dialect", name);
+    // sqlparser accepts a WITH clause that declares the same name twice; every target engine refuses it
+    if let Some(w) = &q.with {
+        let mut seen = std::collections::BTreeSet::new();
+        for cte in &w.cte_tables {
+            if !seen.insert(cte.alias.name.value.clone()) {
+                r.violation(class_sig(format!("dialect={name} fail=duplicate-cte-name"), s), &s.sql, json!({"query": s.sql, "subject": s.what, "rendered": text, "declared_twice": cte.alias.name.value}));
+                return;
+            }
+        }
+    }
     // read back
     let back = guarded(|| Relation::try_from((q.with(relations), t)));
     match back {
@@ -181,6 +191,7 @@ pub fn run(ctx: &Ctx) -> Report {
         let composed: Vec<crate::sqlgen2::Rel> = if ctx.tier == Tier::Quick {
             let mut v = crate::sqlgen2::level1_unary(true);
             v.extend(crate::sqlgen2::level1_binary().into_iter().filter(|r| r.term.ends_with("(users, orders)") || r.term.ends_with("(orders, users)")));
+            v.extend(crate::sqlgen2::shared_cte_terms(true));
             v
         } else {
             crate::sqlgen2::compose(2)
@@ -188,7 +199,7 @@ pub fn run(ctx: &Ctx) -> Report {
         let mut picked = vec![];
         for r in composed {
             if seen.insert(r.sql.clone()) {
-                picked.push((r.sql.clone(), format!("term:{}", r.term.split('(').next().unwrap_or(""))));
+                picked.push((r.sql.clone(), format!("term:{}", r.term.split('(').next().unwrap_or("").split("(c").next().unwrap_or(""))));
             }
         }
         // keep the three quoting subjects last (they are always included)
